@@ -73,6 +73,47 @@ impl Node {
         s
     }
 
+    /// A copy of the pattern in which some of the constructs that commit (atomic groups,
+    /// possessive quantifiers, negative look-arounds — NOT positive look-arounds: this engine
+    /// compiles them to save / body / restore and deliberately keeps the body's alternatives, and
+    /// the property's commit clause does not list them) stand between two empty marker groups
+    /// `(?<zbN>)` ... `(?<zeN>)`: the VM then executes a recognisable instruction right before the
+    /// construct is entered and right after it is left, whatever instructions the construct itself
+    /// is compiled to (or optimised away to). Each construct is marked with probability 1/`odds`;
+    /// `next_id` numbers the pairs. (Numbered back-references after a marker shift by the added
+    /// groups: the marked pattern is simply another pattern of the workload.)
+    pub fn with_commit_brackets(&self, rng: &mut Rng, odds: usize, next_id: &mut usize) -> Node {
+        let rec = |n: &Node, rng: &mut Rng, next_id: &mut usize| n.with_commit_brackets(rng, odds, next_id);
+        let inner = match self {
+            Node::Group(c) => Node::Group(Box::new(rec(c, rng, next_id))),
+            Node::Named(n, c) => Node::Named(n.clone(), Box::new(rec(c, rng, next_id))),
+            Node::NonCap(c) => Node::NonCap(Box::new(rec(c, rng, next_id))),
+            Node::CaseI(c) => Node::CaseI(Box::new(rec(c, rng, next_id))),
+            Node::Alt(v) => Node::Alt(v.iter().map(|c| rec(c, rng, next_id)).collect()),
+            Node::Concat(v) => Node::Concat(v.iter().map(|c| rec(c, rng, next_id)).collect()),
+            Node::Repeat { child, lo, hi, kind } => Node::Repeat { child: Box::new(rec(child, rng, next_id)), lo: *lo, hi: *hi, kind: kind.clone() },
+            Node::Atomic(c) => Node::Atomic(Box::new(rec(c, rng, next_id))),
+            // look-behind bodies must keep a constant width and are left alone; look-ahead bodies
+            // are ordinary sub-patterns
+            Node::Look { child, ahead: true, neg } => Node::Look { child: Box::new(rec(child, rng, next_id)), ahead: true, neg: *neg },
+            Node::CondGroup(g, y, n) => Node::CondGroup(*g, Box::new(rec(y, rng, next_id)), n.as_ref().map(|n| Box::new(rec(n, rng, next_id)))),
+            Node::CondExpr(c, y, n) => Node::CondExpr(c.clone(), Box::new(rec(y, rng, next_id)), Box::new(rec(n, rng, next_id))),
+            other => other.clone(),
+        };
+        let commits = matches!(self, Node::Atomic(_) | Node::Look { neg: true, .. }) || matches!(self, Node::Repeat { kind: Kind::Possessive, .. });
+        if commits && rng.chance(1, odds.max(1)) {
+            let id = *next_id;
+            *next_id += 1;
+            Node::NonCap(Box::new(Node::Concat(vec![
+                Node::Named(format!("zb{}", id), Box::new(Node::Empty)),
+                inner,
+                Node::Named(format!("ze{}", id), Box::new(Node::Empty)),
+            ])))
+        } else {
+            inner
+        }
+    }
+
     fn render_lit(c: char, out: &mut String) {
         if "\\.+*?()|[]{}^$#".contains(c) {
             out.push('\\');
@@ -1055,6 +1096,39 @@ pub fn gen_text(rng: &mut Rng, max_len: usize) -> String {
         };
         s.push(c);
         prev = Some(c);
+    }
+    s
+}
+
+/// A long text (40..250 characters): a short generated piece repeated many times, now and then with
+/// another piece in between, so that iterations yield dozens of items and whatever an iterator or
+/// a replace accumulates from item to item (counters carried over, buffers grown, positions
+/// remembered) has room to go wrong.
+/// one case in this many gets a long text (quick tier: 150, thorough tier: 40)
+pub fn long_text_odds() -> usize {
+    if TEXT_BONUS.load(std::sync::atomic::Ordering::SeqCst) > 0 {
+        40
+    } else {
+        150
+    }
+}
+
+pub fn gen_long_text(rng: &mut Rng) -> String {
+    let mut piece = gen_text(rng, 6);
+    if piece.is_empty() {
+        piece.push(*rng.pick(TEXT_ALPHA));
+    }
+    let other = gen_text(rng, 4);
+    let target = rng.range(40, 250);
+    let mut s = String::new();
+    let mut n = 0;
+    while n < target {
+        if rng.chance(1, 6) {
+            s.push_str(&other);
+            n += other.chars().count();
+        }
+        s.push_str(&piece);
+        n += piece.chars().count();
     }
     s
 }
